@@ -139,7 +139,7 @@ def run_shards(check_id, shards, jobs, shard_timeout, mem_gb=3.0):
     finally:
         for p, _, _, _ in running.values():
             p.kill()
-        subprocess.call(['rm', '-rf', tmp])
+        subprocess.call(['rm', '-rf', tmp, os.path.join('/dev/shm', os.path.basename(tmp))])
     return results
 
 
